@@ -15,12 +15,13 @@ import vf
 PROP = "C05"
 PACK = 20            # generated units per source file
 JENV = {"JAVA_TOOL_OPTIONS": "-Xss128m"}   # the unparser and evaluator are recursive operators over ~150 tokens
+NPROC = 12
 TMO = 420            # one ego process (the machine is shared and often saturated)
 
 # ---------------------------------------------------------------- projection: tokens -> text
 SYM_VAL = {"SL2": "//", "BC": "/*", "CB": "*/", "DQ": '"', "BS": "\\", "TAB": "\t"}
 SYM_DQ = {"SL2": "//", "BC": "/*", "CB": "*/", "DQ": '\\"', "BS": "\\\\", "TAB": "\\t"}
-TAKEN = {"std": "SO", "wide": "SOLKTA", "one": "", "spacey": "SO"}
+TAKEN = {"std": "SOW", "wide": "SOWLKTA", "one": "", "spacey": "SOW"}
 INDENT = {"std": "\t", "wide": "  ", "one": "\t", "spacey": "    "}
 ORDER = {"bc": 0, "lc": 1, "ol": 2, "ob": 3, "on": 4}
 
@@ -113,7 +114,7 @@ def render(toks, lay, cm, uid):
             put(text, glue)
             prev = t
         if t["q"] == "" and t["s"] in ("{", "(", "["):
-            stack.append(t["b"] in ("O", "L") and brk)
+            stack.append(t["b"] in ("O", "L", "W") and brk)
         if i in forced:
             if emit_comments(i):
                 brk = True
@@ -299,7 +300,7 @@ def process_files(files, sd, ego, env, tag):
     for f in files:
         jobs.append(([ego, "fmt", f.path], None, d, env))
         jobs.append((runcmd(f, f.path), None, d, env))
-    res = vf.run_many(jobs, nproc=8, timeout=TMO)
+    res = vf.run_many(jobs, nproc=NPROC, timeout=TMO)
     jobs2, idx = [], []
     for n, f in enumerate(files):
         rc, so, se = res[2 * n]
@@ -317,7 +318,7 @@ def process_files(files, sd, ego, env, tag):
             jobs2.append(([ego, "fmt", f.fpath], None, d, env))
             jobs2.append((runcmd(f, f.fpath), None, d, env))
             idx.append(f)
-    res2 = vf.run_many(jobs2, nproc=8, timeout=TMO)
+    res2 = vf.run_many(jobs2, nproc=NPROC, timeout=TMO)
     for n, f in enumerate(idx):
         rc, so, se = res2[2 * n]
         if rc is None:
@@ -357,7 +358,8 @@ def unit_at(f, line):
 
 def suspects(f):
     """the units of a packed file that cannot be read off it and have to be observed alone ([] = all units can be read off
-    it).  Only decides how the observations are obtained; the verdict is the contract's."""
+    it; None = it cannot be told which: the file is halved).  Only decides how the observations are obtained; the
+    verdict is the contract's."""
     if len(f.units) == 1:
         return []
     rc, so, se = f.orig_raw
@@ -365,11 +367,11 @@ def suspects(f):
     if first and f.oobs[first[0].uid]["status"] == "compile-error":
         m = re.search(r"line (\d+)", se + so)
         u = unit_at(f, int(m.group(1))) if m else None
-        return [u] if u else list(f.units)
+        return [u] if u else None
     if not f.fmt_ok:
         m = re.search(r"line (\d+)", f.fmt_raw_msg)
         u = unit_at(f, int(m.group(1))) if m else None
-        return [u] if u else list(f.units)
+        return [u] if u else None
     out = []
     for u in f.units:
         r = unit_record(f, u)
@@ -392,7 +394,7 @@ def suspects(f):
             if m and m.group(1) in names and ("func " in a[i] or "@test" in a[i]):
                 hit = names[m.group(1)]
                 break
-        out = [hit] if hit else list(f.units)
+        out = [hit] if hit else None
     return out
 
 
@@ -431,86 +433,94 @@ def go_crosscheck(chk, cases, prelude_toks, sd):
 
 
 # ---------------------------------------------------------------- corpus
-def corpus_files(rng, thorough):
-    roots = ["tests", "lib/packages", "lib/services", "examples", "lib"]
-    seen, out = set(), []
-    for r in roots:
-        for dp, dn, fn in os.walk(os.path.join(vf.REPO, r)):
-            dn.sort()
-            for f in sorted(fn):
-                p = os.path.join(dp, f)
-                if f.endswith(".ego") and p not in seen:
-                    seen.add(p)
-                    out.append(p)
-    if not thorough:
-        out = rng.sample(out, min(24, len(out)))
-    return sorted(out)
+CORPUS_DIRS = ("tests", "examples", "lib")
+CTMO = 240
 
 
 def corpus_stage(chk, sd, ego, env, rng, thorough):
-    """every .ego file of the repository: tests/ with `ego test`, programs with `ego run`; the others (packages,
-    services) cannot be run on their own: their outcome is whatever `ego run` says, the same for both texts"""
-    paths = corpus_files(rng, thorough)
-    d = os.path.join(sd, "corpus")
-    os.makedirs(d, exist_ok=True)
+    """every .ego file of the repository (quick: a seeded sample).  Two copies of tests/, examples/ and lib/ are made: A holds the
+    originals, B the formatted texts.  tests/* are run with `ego test`, everything else with `ego run` (a package or service
+    file is not a program: its outcome is whatever `ego run` says - the same for both texts), always from the root of the
+    copy with the same relative path, so that messages and relative file names agree."""
+    ta, tb = os.path.join(sd, "corpusA"), os.path.join(sd, "corpusB")
+    for t in (ta, tb):
+        for d in CORPUS_DIRS:
+            shutil.copytree(os.path.join(vf.REPO, d), os.path.join(t, d), symlinks=True)
+    paths = []
+    for d in CORPUS_DIRS:
+        for dp, dn, fn in os.walk(os.path.join(ta, d)):
+            dn.sort()
+            paths += [os.path.relpath(os.path.join(dp, f), ta) for f in sorted(fn) if f.endswith(".ego")]
+    # every file is formatted (B is the formatted repository); in the quick tier only a sample is run
+    res = vf.run_many([([ego, "fmt", rel], None, ta, env) for rel in paths], nproc=NPROC, timeout=TMO)
     items = []
-    for n, p in enumerate(paths):
-        rel = os.path.relpath(p, vf.REPO)
-        src = open(p, errors="replace").read()
-        mode = "test" if rel.startswith("tests/") else "run"
-        # a copy beside nothing else, but with the original's directory as the working directory (relative file names)
-        items.append({"rel": rel, "src": src, "mode": mode, "cwd": os.path.dirname(p), "o": os.path.join(d, "c%d.ego" % n),
-                      "f": os.path.join(d, "c%d_f.ego" % n)})
-        open(items[-1]["o"], "w").write(src)
-    jobs = []
-    for it in items:
-        jobs.append(([ego, "fmt", it["o"]], None, d, env))
-        jobs.append(([ego, it["mode"], it["o"]], "", it["cwd"], env))
-    res = vf.run_many(jobs, nproc=8, timeout=TMO)
-    jobs2, idx = [], []
-    for n, it in enumerate(items):
-        rc, so, se = res[2 * n]
+    for rel, (rc, so, se) in zip(paths, res):
         if rc is None:
-            raise vf.NoVerdict("ego fmt did not finish within %d s on %s" % (TMO, it["rel"]))
-        it["fmt_ok"] = rc == 0
-        it["fmt_msg"] = norm_msg(se + so if rc != 0 else "")
-        it["ftext"] = so if rc == 0 else ""
-        it["orig"] = res[2 * n + 1]
+            raise vf.NoVerdict("ego fmt did not finish within %d s on %s" % (TMO, rel))
+        it = {"rel": rel, "src": open(os.path.join(ta, rel), errors="replace").read(), "fmt_ok": rc == 0,
+              "fmt_msg": norm_msg(se + so if rc != 0 else ""), "ftext": so if rc == 0 else "",
+              "mode": "test" if rel.startswith("tests/") else "run"}
         if it["fmt_ok"]:
-            open(it["f"], "w").write(it["ftext"])
-            jobs2.append(([ego, "fmt", it["f"]], None, d, env))
-            jobs2.append(([ego, it["mode"], it["f"]], "", it["cwd"], env))
-            idx.append(it)
-    res2 = vf.run_many(jobs2, nproc=8, timeout=TMO)
-    for n, it in enumerate(idx):
-        rc, so, se = res2[2 * n]
+            open(os.path.join(tb, rel), "w").write(it["ftext"])
+        items.append(it)
+    res = vf.run_many([([ego, "fmt", it["rel"]], None, tb, env) for it in items if it["fmt_ok"]], nproc=NPROC, timeout=TMO)
+    for it, (rc, so, se) in zip([it for it in items if it["fmt_ok"]], res):
         it["idem"] = rc == 0 and so == it["ftext"]
-        it["fmtd"] = res2[2 * n + 1]
-    recs = []
+    torun = items if thorough else rng.sample(items, min(24, len(items)))
+    if not thorough:
+        # a file that is not formatted cleanly is always run as well: whether the compiler accepts it decides whether it counts
+        def lost(it):
+            have = scan_comments(it["ftext"])
+            return any(have.count(c) < n for c, n in {c: scan_comments(it["src"]).count(c) for c in scan_comments(it["src"])}.items())
+        torun = torun + [it for it in items if it not in torun and (not it["fmt_ok"] or not it.get("idem", True) or lost(it))]
+    jobs = []
+    for it in torun:
+        jobs.append(([ego, it["mode"], it["rel"]], "", ta, env))
+        jobs.append(([ego, it["mode"], it["rel"]], "", tb, env))
+    res = vf.run_many(jobs, nproc=NPROC, timeout=CTMO)
+
+    def ob(r):
+        rc, so, se = r
+        if rc is None:
+            return None
+        raw = [l for l in (so + "\n" + se).split("\n") if l.strip()]
+        lines = [l for l in (norm_msg(l) for l in raw) if l and not l.startswith("TEST: Completed")]
+        compile_err = rc != 0 and any(re.match(r"^Error: at line \d+:\d+", l) for l in raw)
+        return {"out": lines, "status": "ok" if rc == 0 else ("compile-error" if compile_err else "error rc=%d" % rc)}
+    recs, skipped, again = [], [], []
+    for n, it in enumerate(torun):
+        it["o"], it["f"] = ob(res[2 * n]), ob(res[2 * n + 1])
+        if it["o"] is not None and it["f"] is not None and it["o"] != it["f"] and it["fmt_ok"]:
+            again.append(it)
+    # a difference is looked at again, one file at a time: a program whose own two runs differ (time, random numbers,
+    # files left behind by a neighbour) says nothing about the formatter
+    for it in again:
+        r1 = vf.run_many([([ego, it["mode"], it["rel"]], "", ta, env)], nproc=1, timeout=CTMO)[0]
+        r2 = vf.run_many([([ego, it["mode"], it["rel"]], "", tb, env)], nproc=1, timeout=CTMO)[0]
+        o2 = ob(r1)
+        if o2 is None or o2 != it["o"]:
+            it["o"] = None
+        else:
+            it["f"] = ob(r2)
     for it in items:
-        def ob(r, path):
-            rc, so, se = r
-            if rc is None:
-                return {"out": [], "status": "timeout"}
-            text = (so + "\n" + se).replace(path, "FILE").replace(os.path.basename(path), "FILE")
-            lines = [norm_msg(l) for l in text.split("\n") if l.strip()]
-            # a test summary line counts tests and time only
-            lines = [l for l in lines if not l.startswith("TEST: Completed")]
-            compile_err = rc != 0 and any(l.startswith("Error:") and "terminated with errors" in l for l in lines) and it["mode"] == "run"
-            return {"out": lines, "status": "ok" if rc == 0 else ("compile-error" if compile_err else "error rc=%d" % rc)}
-        o = ob(it["orig"], it["o"])
-        if o["status"] == "timeout":
-            continue
-        f = ob(it["fmtd"], it["f"]) if it["fmt_ok"] else {"out": [], "status": "not-formatted"}
-        if f["status"] == "timeout":
-            continue
+        if it in torun:
+            if it["o"] is None or (it["fmt_ok"] and it["f"] is None):
+                skipped.append(it["rel"])
+                continue
+            o = it["o"]
+            f = it["f"] if it["fmt_ok"] else {"out": [], "status": "not-formatted"}
+        else:
+            # not run in this tier: only formatting, idempotence and comments are judged
+            o = f = {"out": [], "status": "not-run"}
         recs.append({"id": it["rel"], "base": "", "kind": "corpus",
                      "key": {"pc": "", "cc": "", "lay": "", "mode": "", "shape": it["mode"]},
                      "exp": o, "orig": o, "fmt": {"ok": it["fmt_ok"], "msg": it["fmt_msg"][:300]}, "fmtd": f,
                      "idem": bool(it.get("idem", True)), "cin": scan_comments(it["src"]),
                      "cout": scan_comments(it["ftext"]) if it["fmt_ok"] else [],
                      "_src": it["src"], "_fmt": it["ftext"]})
-    return recs, len(jobs) + len(jobs2)
+    chk.cov["corpus_skipped_unstable_or_timeout"] = skipped
+    chk.cov["corpus_run"] = len(torun) - len(skipped)
+    return recs, 2 * len(paths) + len(jobs) + 2 * len(again)
 
 
 # ---------------------------------------------------------------- the check
@@ -592,6 +602,9 @@ def run():
         ov = vf.make_overlay(sd)
         ego = vf.build_ego(sd, ov)
         env = vf.ego_env(sd)
+        dev = int(os.environ.get("C05_DEV_SAMPLE", "0") or "0")      # development aid: a sample only, never a verdict
+        if dev:
+            cases = rng.sample(cases, min(dev, len(cases)))
         units = [Unit(c, vi) for c in cases for vi in range(len(c["vars"]))]
         groups = {}
         for u in units:
@@ -611,6 +624,11 @@ def run():
             nxt = {}
             for f in files:
                 sus = suspects(f)
+                if sus is None:
+                    h = (len(f.units) + 1) // 2
+                    nxt.setdefault((f.shape, "p", f.name + "a"), []).extend(f.units[:h])
+                    nxt.setdefault((f.shape, "p", f.name + "b"), []).extend(f.units[h:])
+                    continue
                 if not sus:
                     for u in f.units:
                         rec = unit_record(f, u)
@@ -645,7 +663,7 @@ def run():
         chk.cov["rounds"] = rounds
         chk.cov["units_observed_alone"] = alone
         # 5. the repository's own files
-        crecs, n2 = corpus_stage(chk, sd, ego, env, rng, thorough)
+        crecs, n2 = ([], 0) if dev else corpus_stage(chk, sd, ego, env, rng, thorough)
         nproc += n2
         chk.cov["corpus_files"] = len(crecs)
         # 6. the contract
@@ -704,4 +722,8 @@ def run():
         for x in recs[:2] + crecs[:1]:
             chk.sample({"unit": x["id"], "key": x["key"], "expected": x["exp"]["out"][:5], "original": x["orig"]["out"][:5],
                         "formatted": x["fmtd"]["out"][:5], "comments": len(x["cin"])})
+        if dev:
+            for key, what, _ in chk.cands:
+                vf.log("candidate", key, what[:300])
+            raise vf.NoVerdict("development sample of %d programs (C05_DEV_SAMPLE): no verdict" % dev)
     return chk.finish()
